@@ -98,7 +98,8 @@ def idx_variants(default, which):
 
 
 def run_case(item):
-    name, check, variant_idx, fully, mtag = item
+    name, check, variant_idx, fully, mtag = item[:5]
+    maxasg = item[5] if len(item) > 5 else None     # large model: first non-trivial assignments only
     from adcgen import Intermediates, Expr, Operators, GroundState
     from adcgen.indices import get_symbols
     itmd = Intermediates().available[name]
@@ -210,12 +211,15 @@ def run_case(item):
     else:
         raise ValueError(check)
     oc = compare(A, out, target, model, timeout_ms=TIMEOUT, seed=seed(), val_opts=val_opts,
-                 spec_extra=spec_extra)
+                 spec_extra=spec_extra, max_assignments=maxasg)
     res.update(oc.as_dict())
     res["witness"] = oc.witness
+    if maxasg:
+        res["api"] += f" [first {maxasg} non-trivial target assignments]"
     if oc.status == "equal" and out is not S.Zero and check == "pt":
         oc2 = compare(A, perturb(out, seed() + len(name)), target, model, timeout_ms=TIMEOUT,
-                      seed=seed(), replay=False, val_opts=val_opts, spec_extra=spec_extra)
+                      seed=seed(), replay=False, val_opts=val_opts, spec_extra=spec_extra,
+                      max_assignments=maxasg)
         res["guard"] = oc2.status
     return res
 
@@ -230,7 +234,7 @@ def main():
         import json
         p = json.load(open(a.replay))
         it = p["item"]
-        it[-1] = tuple(it[-1])
+        it[4] = tuple(it[4])
         r = run_case(tuple(it))
         print(json.dumps({k: r.get(k) for k in ("status", "api", "out", "witness")}, indent=1, default=str))
         return 1 if r.get("status") == "differ" else 0
@@ -258,6 +262,13 @@ def main():
                 continue
             items.append((name, "pt", v, True, (2, 2)))
         items.append((name, "symmetry", "default", False, model_for(name, False)))
+    # 4o4v: the quadruples contributions (t4_2 inside t2_3, disconnected t2*t2 products) vanish
+    # identically in models with fewer than four occupied or virtual spin orbitals
+    for name in ("t2_3", "t1_3", "t2_2", "t3_2"):
+        items.append((name, "pt", "default", False, (4, 4), 4 if quick else 24))
+    if not quick:
+        items.append(("t4_2", "pt", "default", False, (4, 4), 4))
+        items.append(("t2_3", "pt", "default", True, (4, 4), 2))
     for name in DENS:
         for v in variants:
             items.append((name, "pt", v, False, (2, 2)))
